@@ -2,6 +2,7 @@ import BpModel.All
 import BpProofs.NestedDefs
 import BpProofs.RtScalar
 import BpProofs.RtFlat
+import BpProofs.RtSub
 /-
   C01, nested messages: decoding the bytes of a REPEATED message-typed slot restores it,
   element by element, up to `ValEqv` (each element is decoded by the nested loader, for
@@ -14,8 +15,6 @@ open Gen
 /-- every element is a message of class `c` whose encoding the nested loader round-trips -/
 def AllRoundTrip (S : Schema) (rec : Loader) (c : Nat) (xs : List Val) : Prop :=
   ∀ x ∈ xs, (∃ sl ow unk cur, x = Val.msg c sl ow unk cur) ∧ RoundTrips S rec x
-
-theorem lenT_message : LenT PType.message := by decide
 
 /-- one item of a repeated message field: tag, length, payload (`serialize_empty=True`, so
     the record is never empty and the `or b"\n\x00"` fallback never applies) -/
@@ -49,15 +48,6 @@ theorem dumpItems_cons_congr (S : Schema) (f : FieldD) (c : Nat) (x y : Val) (xs
   obtain ⟨sl', ow', unk', cur', rfl⟩ := hy
   rw [dumpItems_msg S f c _ _ _ _ _ hty hnw, dumpItems_msg S f c _ _ _ _ _ hty hnw, hpx, hpy, hrest]
 
-/-- the nested-message branch of `_postprocess_single` -/
-theorem postLen_sub (S : Schema) (rec : Loader) (f : FieldD) (c : Nat) (dc : MsgD) (p : Bytes)
-    (hsf : SubField f c) (hdc : S[c]? = some dc) :
-    postLen S rec f p
-      = (rec dc (freshState dc) p).bind fun st => .ok (.msg c st.slots true st.unknown st.cur) := by
-  unfold postLen
-  rw [hsf.ty, if_neg (by decide), if_pos (by decide)]
-  simp only [hsf.kind, hsf.nw, hdc]
-
 /-- **one record of a message-typed field decodes, through the nested loader, to a copy
     equivalent to the element it was made from**, consuming exactly its own bytes -/
 theorem sub_record_roundtrip (S : Schema) (rec : Loader) (f : FieldD) (c : Nat) (dc : MsgD)
@@ -79,9 +69,6 @@ theorem sub_record_roundtrip (S : Schema) (rec : Loader) (f : FieldD) (c : Nat) 
   show (rec dc (freshState dc) p).bind _ = _
   rw [hload]
   rfl
-
-theorem sub_notmap (f : FieldD) (c : Nat) (h : SubField f c) : (f.ty == PType.map) = false := by
-  rw [h.ty]; rfl
 
 /-- unpacked repeated message field: one record per item, decoded by the nested loader and
     appended in order; the decoded items are element-wise equivalent and re-encode to the
